@@ -239,10 +239,13 @@ impl<T: Clone> CowSlice<T> {
     }
     #[track_caller]
     pub fn extend_repeat_fill(&mut self, fill: &FillValue<T>, count: usize) {
+        let len = self.len();
         self.modify_end(|data| {
             extend_repeat(data, &fill.value, count);
             if fill.is_left() {
-                data.make_mut().rotate_right(count);
+                // Only rotate this slice's own window, not elements before its start
+                let start = data.len() - len - count;
+                data.make_mut()[start..].rotate_right(count);
             }
         });
     }
@@ -252,10 +255,14 @@ impl<T: Clone> CowSlice<T> {
     }
     #[track_caller]
     pub fn extend_repeat_slice_fill(&mut self, slice: FillValue<&[T]>, count: usize) {
+        let len = self.len();
         self.modify_end(|data| {
             extend_repeat_slice(data, slice.value, count);
             if slice.is_left() {
-                data.make_mut().rotate_right(count * slice.value.len());
+                // Only rotate this slice's own window, not elements before its start
+                let added = count * slice.value.len();
+                let start = data.len() - len - added;
+                data.make_mut()[start..].rotate_right(added);
             }
         })
     }
